@@ -27,6 +27,37 @@ def alpha() -> Alphabet:
     return _ALPHA
 
 
+REORDER_METHODS = {"sort", "reverse", "insert", "pop", "remove", "clear"}
+
+
+def list_reorders(fn: ast.FunctionDef, name: str) -> list[ast.AST]:
+    """Operations that can change the element order (or drop elements) of the list held in local `name`."""
+    out: list[ast.AST] = []
+    n_assign = 0
+    for n in ast.walk(fn):
+        if isinstance(n, ast.Call):
+            f = n.func
+            if isinstance(f, ast.Attribute) and isinstance(f.value, ast.Name) and f.value.id == name and f.attr in REORDER_METHODS:
+                out.append(n)
+            elif ast.unparse(f).split(".")[-1] in ("sorted", "reversed", "shuffle", "sample", "set", "frozenset") and n.args \
+                    and isinstance(n.args[0], ast.Name) and n.args[0].id == name:
+                out.append(n)
+        elif isinstance(n, ast.Subscript) and isinstance(n.value, ast.Name) and n.value.id == name and isinstance(n.slice, ast.Slice):
+            out.append(n)
+        elif isinstance(n, ast.Delete) and any(isinstance(t, ast.Subscript) and isinstance(t.value, ast.Name) and t.value.id == name
+                                                for t in n.targets):
+            out.append(n)
+        elif isinstance(n, (ast.Assign, ast.AnnAssign)):
+            tg = n.targets if isinstance(n, ast.Assign) else [n.target]
+            if any(isinstance(t, ast.Name) and t.id == name for t in tg):
+                n_assign += 1
+                if n_assign > 1:
+                    out.append(n)
+            if any(isinstance(t, ast.Subscript) and isinstance(t.value, ast.Name) and t.value.id == name for t in tg):
+                out.append(n)
+    return out
+
+
 # ------------------------------------------------------------------ R1
 def rule_order(ck: Check, repo: Repo) -> None:
     r = ck.rule("R1", "REUSE.toml is written before dep5 is removed; refusal without dep5 precedes any effect")
@@ -145,15 +176,43 @@ def rule_constants(ck: Check, repo: Repo, folder: Folder) -> None:
                     "converter and dep5 reader must split and strip the Copyright field alike", repo.loc(cp))
     # annotation order is kept (last match wins on both sides)
     loops = [n for n in fn.body if isinstance(n, ast.For)]
-    if len(loops) != 1 or ast.unparse(loops[0].iter) != "paragraphs" or \
-            not any(isinstance(c, ast.Call) and ast.unparse(c.func) == "annotations.append" for c in ast.walk(loops[0])):
+    _rets = [n.value for n in ast.walk(fn) if isinstance(n, ast.Return) and isinstance(n.value, ast.Name)]
+    _acc = _rets[-1].id if _rets else "annotations"
+    _p0 = fn.args.args[0].arg if fn.args.args else "paragraphs"
+    if len(loops) != 1 or ast.unparse(loops[0].iter) != _p0 or \
+            not any(isinstance(c, ast.Call) and ast.unparse(c.func) == f"{_acc}.append" for c in ast.walk(loops[0])):
         r.violation(f"{CD}._annotations_from_paragraphs", "paragraph order", "annotations must be appended in paragraph order",
                     repo.loc(fn))
     tf = repo.func(f"{CD}.toml_from_dep5")
+    # ... and nothing reorders the list between its construction and the dump
+    for f, qn in ((fn, f"{CD}._annotations_from_paragraphs"), (tf, f"{CD}.toml_from_dep5")):
+        acc = "annotations"
+        rets = [n.value for n in ast.walk(f) if isinstance(n, ast.Return) and isinstance(n.value, ast.Name)]
+        if f is fn and rets:
+            acc = rets[-1].id
+        if f is tf:
+            for n in ast.walk(tf):
+                if isinstance(n, ast.Assign) and len(n.targets) == 1 and isinstance(n.targets[0], ast.Name) \
+                        and ast.unparse(n.value).startswith("_annotations_from_paragraphs("):
+                    acc = n.targets[0].id
+        ops = list_reorders(f, acc)
+        r.instance(f"order-preserved:{qn.split('.')[-1]}", {"list": acc, "reordering_operations": [ast.unparse(o)[:60] for o in ops]})
+        for o in ops:
+            r.violation(qn, f"table order changed: {ast.unparse(o)[:70]}",
+                        "dep5 and REUSE.toml both let the LAST matching paragraph/table win; reordering the tables changes which"
+                        " paragraph applies to a file matched by several", repo.loc(o))
     src = ast.unparse(tf)
     r.instance("document", {"version": "REUSE_TOML_VERSION" in src, "all_paragraphs": "dep5.all_files_paragraphs()" in src})
-    if "'version': REUSE_TOML_VERSION" not in src or "result['annotations'] = annotations" not in src \
-            or "_annotations_from_paragraphs(dep5.all_files_paragraphs())" not in src:
+    from ..rules import single_assign_value
+    doc_ok = False
+    for n in ast.walk(tf):
+        if isinstance(n, ast.Assign) and len(n.targets) == 1 and isinstance(n.targets[0], ast.Subscript) \
+                and isinstance(n.targets[0].slice, ast.Constant) and n.targets[0].slice.value == "annotations":
+            val = n.value
+            if isinstance(val, ast.Name):
+                val = single_assign_value(tf, val.id) or val
+            doc_ok = ast.unparse(val) == "_annotations_from_paragraphs(dep5.all_files_paragraphs())"
+    if "'version': REUSE_TOML_VERSION" not in src or not doc_ok:
         r.violation(f"{CD}.toml_from_dep5", "document keys", "version / annotations keys or the paragraph source changed",
                     repo.loc(tf))
     ver = folder.known(GL, "REUSE_TOML_VERSION")
